@@ -7,7 +7,7 @@ import itertools
 from ..driver import Session, run_store, written_allocs, read_allocs
 from ..poly import PW, sym, const
 from ..store import Store, ViewInfo, full_box, comp_rank
-from ..values import Arr, DType, Inst, RaisedInAnalysed, Unsupported
+from ..values import Arr, DType, Inst, RaisedInAnalysed, Unsupported, simplify_scalar as simplify_scalar_
 
 FLOW = "sopht.simulator.flow"
 
@@ -131,6 +131,15 @@ def trace_step(S, run, with_store=True):
         run.raised = ex
     run.trace = S.I.trace[n0:]
     run.problems = run.problems + S.I.problems[p0:]
+    if run.raised is None and not run.problems:
+        # cheap structural pre-check (no symbolic execution): a step that rewrites some components of a public vector field
+        # rewrites all of them; a skipped component (and, typically, a sibling advanced twice) is reported here, before the
+        # store would have to compose a stencil with itself
+        from ..driver import skipped_components
+        from ..values import Op
+        for fnname, pname, wr, miss in skipped_components(run.trace):
+            run.problems.append(Op("Problem", pkind="component-skipped", where=fnname, stack=(),
+                                   msg="%s rewrites components %s of its vector argument %s but never component %s" % (fnname.split(".")[-1], wr, pname, miss)))
     if with_store and run.raised is None and not run.problems:
         try:
             havoc = written_allocs(run.trace) | set(run.public)
@@ -215,6 +224,10 @@ def sim3d_monitor_facts(S):
 
 
 # ---------------------------------------------------------------------------- parallel execution over configurations
+import os
+_PARENT_PID = [os.getpid()]
+
+
 def _worker(args):
     modname, fname, repo, real_t, item, extra = args
     import importlib
@@ -232,10 +245,19 @@ def _worker(args):
         files.update(S.I.files_read)
         stencils.update((sd.module, sd.lineno) for sd in S.I.stencils)
         return rep
+    from .. import budget
+    in_child = os.getpid() != _PARENT_PID[0]
     try:
+        if in_child:
+            budget.start_item()
         done = run_under_size_cases(one, getattr(mod, "CASE_SPLIT", False))
     except Unsupported as ex:
         return {"error": "%s (while analysing %r)" % (ex, item)}
+    except MemoryError:
+        return {"error": "memory budget of the analysis exceeded (while analysing %r)" % (item,)}
+    finally:
+        if in_child:
+            budget.end_item()
     obligations, samples = [], []
     for case, rep in done:
         tag_case(rep.obligations, case)
@@ -264,6 +286,7 @@ def parallel_over(S, rep, modname, fname, items, extra=(), jobs=None):
     import multiprocessing as mp
     from ..values import Unsupported
     items = list(items)
+    _PARENT_PID[0] = os.getpid()
     jobs = jobs or int(os.environ.get("VERIF_JOBS", "0") or 0) or min(16, os.cpu_count() or 1)
     args = [(modname, fname, S.repo, S.real_t.name, it, tuple(extra)) for it in items]
     if jobs <= 1 or len(items) <= 1:
